@@ -53,7 +53,10 @@ macro_rules! uint_fn {
             let l = <$L>::parse(a[0]);
             let (w, x) = parse_uint(a[1]);
             let lb = l.dump();
-            macro_rules! with { ($u:ty) => {{ let r = x as $u; let res = all_ops!($L, l, r, op, a[2]); res }} }
+            macro_rules! with { ($u:ty) => {{ let r = x as $u; let res: $L = match op {
+                "shl" => forms!(l, r, a[2], <<, <<=),
+                "shr" => forms!(l, r, a[2], >>, >>=),
+                _ => all_ops!($L, l, r, op, a[2]) }; res }} }
             let res = match w { 8 => with!(u8), 16 => with!(u16), 32 => with!(u32), 64 => with!(u64), 128 => with!(u128), 65 => with!(usize), _ => panic!("width") };
             assert_eq!(lb, l.dump(), "left operand modified");
             format!("ok {}", res.dump())
@@ -121,6 +124,27 @@ fn generate(fam: &str, seed: u64, tier: &str, emit: Emit) {
                 for op in OPS {
                     for f in FORMS {
                         emit(format!("{} {} {} {} {}", op, DBG, l, r, f));
+                    }
+                }
+            }
+        }
+        // shifts: every form, every integer type, amounts around the length, the word size and the usize limit
+        for _ in 0..(reps * 2) {
+            let l = gen_vec(rng, &lty, 200);
+            let len = tok_len(&l);
+            let ks: Vec<u128> = vec![0, 1, lty.w as u128, len as u128, len.saturating_sub(1) as u128, rng.below(len + 2) as u128,
+                u64::MAX as u128, 1u128 << 64, (1u128 << 64) + rng.below(len + 1) as u128, u128::MAX, 1u128 << 32];
+            for k in ks {
+                let mut cands: Vec<usize> = vec![];
+                for w in [8usize, 16, 32, 64, 65, 128] {
+                    let bits = if w == 65 { 64 } else { w };
+                    if bits == 128 || k < (1u128 << bits) { cands.push(w); }
+                }
+                let ut = *rng.pick(&cands);
+                let tok = if ut == 65 { format!("us:{:x}", k) } else { format!("u{}:{:x}", ut, k) };
+                for op in ["shl", "shr"] {
+                    for f in FORMS {
+                        emit(format!("{} {} {} {} {}", op, DBG, l, tok, f));
                     }
                 }
             }
